@@ -368,9 +368,14 @@ ssize_t verif_sendto(int fd, const void *buf, size_t len, int flags, const struc
 	/* what the kernel does with a destination of the other address family (a v6 address on the v4 socket or the reverse, a v6 address on the
 	   forward socket): EAFNOSUPPORT, nothing is sent.  Reported as an event of its own: the model never produces it. */
 	if (to && ((fd == V4_FD && to->sa_family == AF_INET6) || (fd == V6_FD && to->sa_family == AF_INET) || (fd == BIND_FD && to->sa_family == AF_INET6))) {
-		after_ans = 0;
+		/* printed as `badfam <kind> <dst> <hex>`: what was attempted, so that the model comparison can still look at it */
 		ev_begin("badfam ");
+		ev_str(fd == BIND_FD ? "fwd" : after_ans ? "tx" : in_bind_op ? "rly" : (len >= RAW_HDR_LEN && !memcmp(p, raw_header, RAW_HDR_IDENT_LEN)) ? "raw" : "nsa");
+		after_ans = 0;
+		ev_str(" ");
 		ev_addr(to, tolen);
+		ev_str(" ");
+		ev_hex(p, len);
 		errno = EAFNOSUPPORT;
 		return -1;
 	}
